@@ -70,7 +70,7 @@ def plan(tier, seed):
 def minimums(tier):
     return {"hlog.calls_checked": 5000, "hlog.field_lines_checked": 20000, "fields.calls_checked": 5000,
             "workload.single_byte_probes": 2000, "workload.lengths": 3000,
-            "plugin.hlog_checked": 100, "layout.compared": 40, "layout.decoded_in_plain_tree": 40}
+            "plugin.hlog_checked": 100, "layout.compared": 40, "layout.decoded_in_plain_tree": 40, "plugin.synthetic_table_checked": 500}
 
 
 def drive(ctx, hlog, rng, path, fields, tag):
@@ -108,6 +108,35 @@ def run(spec, ctx):
             im.write_pte_table(path, iogen.gen_table(rng, 2), rng, hlog_fields=fields, style=rng.randrange(16))
             TABLES[os.path.abspath(path)] = list(fields)
             drive(ctx, hlog, rng, path, fields, "syn%d-%d" % (spec["rseed"], i))
+            # the same table reached through the I/O-drawer plug-in: a drawer type pointed at this header file (its
+            # header_file_name is joined onto the package directory - an absolute name stays as it is); the drawer type objects
+            # are long-lived, the file they name changes from round to round
+            import json as _json
+            import udparsers.m2c00.m2c00 as _m2c00
+            from io_drawer.drawer_type import MEX_DRAWER_TYPE, NIMITZ_DRAWER_TYPE
+            dt = MEX_DRAWER_TYPE if i % 2 else NIMITZ_DRAWER_TYPE
+            saved = dt.header_file_name
+            dt.header_file_name = path
+            try:
+                rl = iogen.record_len(fields)
+                for n in (max(1, rl), rl + 2, max(1, rl - 1), rng.randrange(1, rl + 4)):     # a section payload is never empty
+                    d = bytes(rng.choice([0, 1, 0xFF, rng.randrange(256)]) for _ in range(n))
+                    ctx.count("plugin.synthetic_table_checked")
+                    ctx.current = {"plugin_path": "drawer type pointed at a synthetic header", "fields": fields[:40], "data": d}
+                    try:
+                        got = _json.loads(_m2c00.parseUDToJson(72, dt.user_data_version, memoryview(d)))
+                    except Exception as e:
+                        ctx.violation("C16/plugin-raised", "m2c00.parseUDToJson(72, ...) raised %r" % (e,), data=d)
+                        continue
+                    want = im.hlog_ref(d, fields)
+                    if got.get("History Log") != want:
+                        g = got.get("History Log") or []
+                        j = next((q for q in range(min(len(g), len(want))) if g[q] != want[q]), min(len(g), len(want)))
+                        ctx.violation("C16/plugin-path", "history log through the plug-in with the drawer type's header file replaced: "
+                                      "line %d shown %r, the model says %r" % (j, g[j] if j < len(g) else None,
+                                                                               want[j] if j < len(want) else None), data=d)
+            finally:
+                dt.header_file_name = saved
             if fields and i % 4 == 0:
                 # the same path, same size, same time stamps - but another table (widths of two fields swapped)
                 k = rng.randrange(len(fields))
